@@ -274,8 +274,68 @@ for tag in ('f32', 'f64'):
 
 flat = P.build(d, 'flat', defines=['GLM_ENABLE_EXPERIMENTAL'])
 flatF = P.build(d, 'flat', defines=['GLM_ENABLE_EXPERIMENTAL'], tag='c13_flat_bits')   # same IR; separate tag: results are keyed by (function, build)
+
+# tiers: quick = every obligation of the contract is decided by z3's default tactic in < ~20 s of CPU; the arc clauses need the
+# case split + Groebner leaves (minutes).  Timeouts are wall clock and the machine is shared.
+QUICK = ('glm_quat_lerp_', 'glm_compat_lerp_', 'glm_dualquat_lerp_', 'glm_quat_slerp_t0_', 'glm_quat_slerp_t1_', 'glm_quat_slerp_spin_t0_',
+         'glm_quat_slerp_spin0_', 'glm_vec3_slerp_t0_', 'glm_vec3_slerp_t1_', 'glm_quat_fastMix_')
 for fn, real, kw in contracts:
-    kw.setdefault('timeout', 300)
+    kw.setdefault('timeout', 600 if 'slerp_sym' in fn else 300)
+    kw.setdefault('tier', 'quick' if fn.startswith(QUICK) else 'thorough')
     P.contract(fn, real, kind='R', **kw)
+# kind F: only the bitwise affine blend of lerp<float> is decided (cadical, ~60 s CPU); the others time out at 600 s (see not_covered) and are
+# registered only when C13_TRY_UNDECIDED=1
+F_DECIDED = ('glm_quat_lerp_f32',)
 for fn, real, ens, kw in fcontracts:
-    P.contract(fn, real, ensures=ens, build=flatF, unwind=2, backends=('sat',), timeout=600, uf_float=('fmul', 'fdiv'), **kw)
+    if fn in F_DECIDED or os.environ.get('C13_TRY_UNDECIDED') == '1':
+        P.contract(fn, real, ensures=ens, build=flatF, unwind=2, backends=('sat',), timeout=600, uf_float=('fmul', 'fdiv'), tier='thorough', **kw)
+
+P.level_text = ('over the reals (machine arithmetic treated as mathematical): the real-valued function computed by the code clang extracts from '
+                '/repo satisfies, for ALL unit quaternions x, y, ALL real t and ALL integer spin counts k (float and double instantiations): '
+                'lerp(x,y,t) and gtx/compatibility lerp are the affine blend x(1-t)+yt exactly; slerp(x,y,0) = x and slerp(x,y,1) = y, or -y exactly '
+                'when x.y < 0; with c = |x.y|, T = acos(c) and z the nearer of y, -y: for c <= 1 - epsilon<T>() the result of slerp is a unit '
+                'quaternion in the plane of x and y with x.result = cos(tT) and z.result = cos((1-t)T) (the point of the shorter great arc at '
+                'constant angular speed, also for t outside [0,1]), with k extra spins the same with total angle T + k*pi_T; for c > 1 - epsilon '
+                'it is the affine blend x(1-t)+zt; mix is the same along the oriented arc (no negation, domain x.y > -1); slerp(x,y,t) equals '
+                'slerp(y,x,1-t) for x.y >= 0 and its negative for x.y < 0; slerp(x,y,t,0) = slerp(x,y,t); shortMix obeys the slerp clauses for '
+                '0 < t < 1 and returns x at 0, +-y at 1; fastMix is the affine blend divided by its length (unit); dual-quaternion lerp blends both '
+                'parts towards the one of y, -y whose real part is nearer, and every division in these functions has a non-zero denominator; '
+                'decided by z3 nonlinear real arithmetic, case split on the two branch conditions and Groebner bases on the extracted IR.  '
+                'lerp<float> is in addition proved bit-precisely (CBMC) equal to (1-a)*x + y*a in IEEE arithmetic for all float patterns')
+P.level_note = ('trusted: clang-14 lowering, tools/ll2smt.py symbolic execution + tools/rsplit.py case split, z3, sympy Groebner, specs/rspec.py '
+                '(dot, norm2, minors3/det), the ground axioms of sqrt/sin/cos/acos and the trigonometric identities listed under assumptions; '
+                'blind to rounding, cancellation in sin(T) near T = 0 and T = pi, overflow/underflow, NaN/Inf, and to the difference between the '
+                'float constant pi_T and pi; the threshold 1 - epsilon<T>() and pi_T are the exact rationals of the float/double constants')
+P.technique = ('contracts over the reals on mechanically extracted LLVM IR: symbolic execution + z3 QF_NRA / sympy Groebner, '
+               'CBMC contracts for bit-exact branch facts')
+P.design_ref = 'DESIGN.md sections 5 and 6 C13'
+P.assumptions = ['machine arithmetic treated as mathematical (IEEE float/double identified with the reals)',
+                 'sin(T) == sin(A)*cos(B) + cos(A)*sin(B) and cos(T) == cos(A)*cos(B) - sin(A)*sin(B) whenever A + B == T, instantiated at '
+                 '(A, B) = ((1-t)*T, t*T), T = acos(c) (requires of mix, slerp, gtx slerp(vec3)), T = atan2(sqrt(1-c^2), c) (shortMix), and at '
+                 '(A, B) = (T - t*phi, t*phi), phi = T + k*pi_T (slerp with spins)',
+                 'c^2 <= 1 => cos(atan2(sqrt(1 - c^2), c)) == c and sin(atan2(sqrt(1 - c^2), c)) == sqrt(1 - c^2) (requires of shortMix)',
+                 'ground axioms of the uninterpreted functions: x >= 0 => sqrt(x) >= 0 and sqrt(x)^2 == x; sin^2 + cos^2 == 1; sin(0) == 0, '
+                 'cos(0) == 1; -1 <= c <= 1 => cos(acos c) == c, sin(acos c) >= 0, acos c >= 0',
+                 'the switch to linear interpolation is specified at |x.y| > 1 - epsilon<T>() with epsilon<float> = 2^-23, epsilon<double> = 2^-52 '
+                 '(glm/ext/scalar_constants.hpp); there the result is the affine blend, which is NOT of unit length (only within epsilon)',
+                 'extra spins: total angle T + k*pi_T with pi_T = glm::pi<T>(), the float/double nearest to pi (Graphics Gems III p. 96)',
+                 'domain of mix (oriented arc): x.y > -1; the great arc from x to -x is not unique and the formula is 0/0 there',
+                 'domain of gtx slerp(vec3): unit vectors, x.y > -1; identical / parallel vectors ARE in the domain (the clause demands x)',
+                 'lerp and dual-quaternion lerp: 0 <= a <= 1 (GLM asserts it; NDEBUG build)',
+                 'kind F (lerp<float>): float multiplication abstracted as a commutative uninterpreted function (sound: both sides apply '
+                 'the same operation to the same operands)']
+P.not_covered = ['"no input pair, however close to parallel or antipodal, makes slerp return NaN or leave the arc" in float arithmetic: needs '
+                 'accuracy bounds of acosf/sinf near 1 and of the division by sin(T); over the reals the denominators are proved non-zero',
+                 'unit length on the linear-fallback branch (|x.y| > 1 - epsilon): the affine blend is not of unit length; stated, not claimed',
+                 'slerp with spins at t = 1 (result +-y) and the documented "long path for negative k": sin(k*pi_T) != 0 for the float constant '
+                 'pi_T, so the end point is not a theorem over the reals; t = 0, unit length, plane and both angles are covered for every k',
+                 'mix(x, -x, a): 0/0 over the reals (excluded by the domain x.y > -1); in float arithmetic sin(acosf(-1)) != 0 and the code '
+                 'returns the zero quaternion for 0 < a < 1 (see proposed/C13_report.md)',
+                 'shortMix for a outside [0,1] (the code clamps to x / y; undocumented), fastMix when the blend vanishes (y == -x, a == 1/2: the '
+                 'code returns the identity quaternion), gtx squad / intermediate (exp/log of quaternions)',
+                 'kind F "slerp negates y iff the float dot < 0" / "mix and slerp return the bitwise affine blend above the threshold" (f32, f64) '
+                 'and the bitwise blend of lerp<double>: cadical and minisat time out at 600 s (two float adders per component behind '
+                 'uninterpreted products are not recognised as identical); enable with C13_TRY_UNDECIDED=1',
+                 'slerp(x,y,t) == +-slerp(y,x,1-t) is claimed in the sharper form "equal for x.y >= 0, opposite for x.y < 0"',
+                 'GLM_FORCE_QUAT_DATA_WXYZ / aligned / SIMD instantiations (quaternion_common_simd.inl has no mix/slerp specialisation)',
+                 'rounding: every equality is over the reals; float results differ by rounding errors that grow like 1/sin(T) near T = pi for mix']
